@@ -245,6 +245,15 @@ fn run_suite<S: ShortGroupSignatureScheme + 'static>(em: &mut Emitter, base: &mu
                 if let Out::Ok(p) = steered_create(&scn.credentials, &schema_other, &scn.schema, &scn.nonce, Some(reported)) {
                     judge(em, suite, "label-substituted", &scn, &p, &format!("{} withheld, {} reported", l, o));
                 }
+                // the proof truthfully reveals the other position (same count), the report keeps the requested label with a
+                // false value: nothing in the proof's index list sits at the reported claim's position
+                let mut rep2 = honest_map(&less);
+                rep2.insert(l.clone(), false_claim(&claims[li], false));
+                let mut reported2 = Reported::new();
+                reported2.insert(sid.clone(), rep2);
+                if let Out::Ok(p) = steered_create(&scn.credentials, &schema_other, &scn.schema, &scn.nonce, Some(reported2)) {
+                    judge(em, suite, "false-value-while-proof-reveals-another-position", &scn, &p, &format!("{} reported falsely, {} revealed", l, o));
+                }
                 break;
             }
         }
@@ -363,7 +372,10 @@ fn run_suite<S: ShortGroupSignatureScheme + 'static>(em: &mut Emitter, base: &mu
                     let mut creds2 = scn.credentials.clone();
                     creds2.insert(sid.clone(), cred2.into());
                     if let Out::Ok(q2) = call(|| Presentation::create(&creds2, &scn.schema, &scn.nonce)) {
-                        judge(em, suite, "credential-copy-retyped-same-scalar", &scn, &q2, &l);
+                        // same scalar: only the type test of the disclosed-claims check stands in the way (model line);
+                        // another scalar (neighbouring number): report and proof agree, the proof of knowledge rejects
+                        let dev = if q2.disclosed_messages[&sid][&l].to_scalar() == sc { "credential-copy-retyped-same-scalar" } else { "credential-copy-neighbour-value-inner-false" };
+                        judge(em, suite, dev, &scn, &q2, &l);
                     }
                 }
             }
